@@ -2,6 +2,7 @@ import Qryn.ReadSide.Params
 import Qryn.ReadSide.Controllers
 import Qryn.Gen.ReadSide
 import Qryn.ReadSide.PipelineHExec
+import Qryn.ReadSide.StageExec
 namespace Driver.C12
 open Qryn.ReadSide Qryn.Gen
 
@@ -91,6 +92,8 @@ def handle : List String → Option String
   | ["c12trace", idLen, bad, qf] => do
     let bad ← if bad = "-" then some none else bad.toNat?.map some
     some (tempoTrace ⟨← idLen.toNat?, bad, true, true, ← bool? qf⟩).name
+  | ["c12sdrain", bs] => do
+    some (Pipe.stageRun Pipe.wrapProcessCode (← list? bool? bs))
   -- the remaining controllers (Controllers.lean): `c12ctl <endpoint> <step outcomes / parsed parameters …>`
   | ["c12ctl", "lokiLabels", pl, fo, s, e, sv] => do
     some (lokiLabels (← out? pl) (← out? fo) (← parsed? s) (← parsed? e) (← out? sv)).name
